@@ -72,6 +72,14 @@ func assignInPlace(dst, src protoreflect.Message) {
 				dst.Set(fd, src.Get(fd))
 			}
 		default:
+			if fd.Kind() == protoreflect.BytesKind && src.Has(fd) && dst.Has(fd) {
+				// same length: redraw into the SAME backing array (a sender drawing every frame into one buffer)
+				d, sb := dst.Get(fd).Bytes(), src.Get(fd).Bytes()
+				if len(d) == len(sb) && len(d) > 0 {
+					copy(d, sb)
+					continue
+				}
+			}
 			if src.Has(fd) {
 				dst.Set(fd, src.Get(fd))
 			} else {
